@@ -1044,6 +1044,10 @@ def finish_class(I, ctx, cls):
         for k, v in list(cls.ns.items()):
             if k.startswith("_") or isinstance(v, (FuncVal, PropertyVal, ClassMethodVal, StaticMethodVal, ClassVal, DispatchVal)):
                 continue
+            from .externals import AUTO
+            if v is AUTO:
+                # strenum.StrEnum: auto() is the member name; enum.Enum: 1, 2, ...
+                v = k if "strenum.StrEnum" in ext else idx + 1
             members[k] = EnumMember(cls, k, v, idx)
             idx += 1
         if members:
